@@ -37,6 +37,40 @@ def drop_block(r, rule, head_rx, replacement, keep_head=True):
     return r
 
 
+def loop_to_induction(r, rule, loop_rx, tag, args):
+    """Textual loop-contract transformation (what goto-instrument --apply-loop-contracts does, done by the
+    extractor so that the unit stays a plain C program):
+        for (INIT; COND; INCR) BODY
+     -> { INIT; VF_LOOP_HEAD_tag(args)  if (COND) { BODY INCR; VF_LOOP_STEP_tag(args) } }
+    VF_LOOP_HEAD asserts the invariant (base), snapshots loop-entry values, havocs the loop's assigns
+    targets and assumes the invariant; VF_LOOP_STEP asserts the invariant again (step) plus the frame of
+    the body, then cuts the path (assume false). The code after the block runs under invariant && !COND.
+    INIT, COND, INCR and BODY are the real text."""
+    blank = blank_comments(r.text)
+    ms = list(re.finditer(loop_rx, blank))
+    if len(ms) != 1:
+        raise ExtractionError("%s: loop rule '%s' /%s/ matched %d times, expected 1" % (r.name, rule, loop_rx, len(ms)))
+    m = ms[0]
+    op = blank.find("(", m.start())
+    cp = match_brace(blank, op)
+    parts = r.text[op + 1:cp].split(";")
+    if len(parts) != 3:
+        raise ExtractionError("%s: loop rule '%s': header is not INIT;COND;INCR" % (r.name, rule))
+    init, cond, incr = [x.strip() for x in parts]
+    k = cp + 1
+    while blank[k].isspace():
+        k += 1
+    if blank[k] == "{":
+        e = match_brace(blank, k)
+    else:
+        e = blank.find(";", k)
+    body = r.text[k:e + 1]
+    new = "{ %s; VF_LOOP_HEAD_%s(%s)\n  if (%s) { %s %s; VF_LOOP_STEP_%s(%s) } }" % (init, tag, args, cond, body, incr, tag, args)
+    r.log.append(dict(rule=rule, pattern=loop_rx, replacement="<loop -> base/havoc/step form>", hits=1, examples=[r.text[m.start():e + 1][:160]]))
+    r.text = r.text[:m.start()] + new + r.text[e + 1:]
+    return r
+
+
 def pick_decl(ctx, path, cls, decl_rx, what):
     """Cut one data-member declaration `... name[...]{init};` located by decl_rx (must be unique)."""
     src = open(path).read()
@@ -158,6 +192,12 @@ ACCESSORS = [
     ("updQErrWeights_sub", r"Vector& updQErrWeights\(SubsystemIndex subsys\)\s*", "Position", "",  "same stage as updQErrWeights()"),
     ("updUErrWeights_sub", r"Vector& updUErrWeights\(SubsystemIndex subsys\)\s*", "Velocity", "",  "same stage as updUErrWeights()"),
 ]
+
+
+# accessors whose code invalidates an EARLIER stage than documented (over-invalidation is conservative: not a
+# violation of the property statement; only the soundness clauses are checked for them, see evidence notes)
+CONSERVATIVE_OK = {"updZWeights": "StateImpl::updZWeights() calls invalidateAll(Stage::Dynamics); State.h documents 'invalidate just Report stage' "
+                                  "and updZWeights(SubsystemIndex) uses Stage::Report"}
 
 
 def build_state_unit(ctx):
@@ -332,22 +372,25 @@ def build_state_unit(ctx):
         r.sub("container access -> contracted stub (element)", call_rx, call_repl, ncalls)
 
     def x_invsys(r):
-        x_subsys_loop(r, 2, r"subsystems\[i\]\.(clearReferencesTo\w+StageGlobals)\(\)", r"\1(vf_subsystems_at(self, i))", 2)
+        r.drop("opaque payload: loops that only clear subsystem views into the global pools",
+               r"for \(SubsystemIndex i\(0\); i < \(int\)subsystems\.size\(\); \+\+i\)\s*subsystems\[i\]\.clearReferencesTo(Instance|Model)StageGlobals\(\);", ";", 2)
         r.drop("opaque payload: pool / view clearing", r"\b\w+(\[j\])?\.(clear|unlockShape)\(\);", ";", 31)
         r.sub("implicit-this call", r"\bnoteYChange\(\)", "noteYChange(self)", 1)
         r.sub("Stage::prev by contract", r"\bstg\.prev\(\)", "Stage_prev(stg)", 1)
-        for k in (1, 2):
-            r.splice_loop("loop-contract:invalidateJustSystemStage#loop%d (payload loop over subsystems)" % k,
-                          r"for \(int i=0; i < self->subsystems_size; \+\+i\)", LOOP_IDX, k)
     U.fn(STATE_CPP, r"void StateImpl::invalidateJustSystemStage\(Stage stg\)\s*", "StateImpl::invalidateJustSystemStage",
          "void invalidateJustSystemStage(struct StateImpl* self, Stage stg)", x_invsys, members=SI)
 
     def x_invall(r):
         x_subsys_loop(r, 1, r"subsystems\[i\]\.invalidateStageJustThisSubsystem\(g\)", "invalidateStageJustThisSubsystem(vf_subsystems_at(self, i), g)", 1)
         r.sub("implicit-this call", r"\binvalidateJustSystemStage\(g\)", "invalidateJustSystemStage(self, g)", 1)
-        r.splice_loop("loop-contract:invalidateAll#loop1 (ghost subsystem index)", r"for \(int i=0; i<self->subsystems_size; \+\+i\)", "LOOP_CONTRACT_INVALIDATE_ALL(self, g)", 1)
+        loop_to_induction(r, "loop-contract:invalidateAll#loop1 (ghost subsystem index)", r"for \(int i=0; i<self->subsystems_size; \+\+i\)", "INVALIDATE_ALL", "self, g")
+    # callers (the upd* accessors) are verified against invalidateAll's CONTRACT: in units compiled with
+    # -DINVALIDATEALL_BY_CONTRACT the real body is renamed and state_harness.h supplies the contract in
+    # assert-requires / havoc / assume-ensures form (the same relation macros that unit state.invalidateAll proves)
+    P.append("#ifdef INVALIDATEALL_BY_CONTRACT\n#define invalidateAll invalidateAll_real\n#endif")
     U.fn(STATEIMPL_H, r"void invalidateAll\(Stage g\)\s*", "StateImpl::invalidateAll",
          "void invalidateAll(struct StateImpl* self, Stage g)", x_invall, members=SI)
+    P.append("#ifdef INVALIDATEALL_BY_CONTRACT\n#undef invalidateAll\nvoid invalidateAll(struct StateImpl* self, Stage g);\n#endif")
 
     def x_invcache(r):
         r.sub("exception plumbing", r"SimTK_STAGECHECK_GE_ALWAYS\(", "VF_STAGECHECK_GE_ALWAYS(", 1)
@@ -356,11 +399,37 @@ def build_state_unit(ctx):
         r.sub("container access: .size() -> ghost length", r"\(int\)subsystems\.size\(\)", "self->subsystems_size", 1)
         r.sub("container access -> contracted stub (element)", r"mthis->subsystems\[i\]\.invalidateStageJustThisSubsystem\(g\)", "invalidateStageJustThisSubsystem(vf_subsystems_at(self, i), g)", 1)
         r.sub("const_cast alias of this", r"mthis->invalidateJustSystemStage\(g\)", "invalidateJustSystemStage(self, g)", 1)
-        r.splice_loop("loop-contract:invalidateAllCacheAtOrAbove#loop1 (ghost subsystem index)", r"for \(int i=0; i<self->subsystems_size; \+\+i\)", "LOOP_CONTRACT_INVALIDATE_ALL(self, g)", 1)
+        loop_to_induction(r, "loop-contract:invalidateAllCacheAtOrAbove#loop1 (ghost subsystem index)", r"for \(int i=0; i<self->subsystems_size; \+\+i\)", "INVALIDATE_ALL", "self, g")
     U.fn(STATEIMPL_H, r"void invalidateAllCacheAtOrAbove\(Stage g\) const\s*", "StateImpl::invalidateAllCacheAtOrAbove",
          "void invalidateAllCacheAtOrAbove(struct StateImpl* self, Stage g)", x_invcache, members=SI)
 
+    U.fn(STATEIMPL_H, r"const Stage& getSystemStage\(\) const\s*", "StateImpl::getSystemStage", "Stage getSystemStage(const struct StateImpl* self)", members=SI)
+    acc_lines = []
+    for (cname, anchor_rx, docstage, bumps, doc) in ACCESSORS:
+        per_sub = cname.endswith("_sub")
+
+        def x_acc(r, bumps=bumps):
+            r.sub("exception plumbing", r"SimTK_STAGECHECK_GE\(", "VF_STAGECHECK_GE(", 1)
+            r.sub("implicit-this call", r"\bgetSystemStage\(\)", "getSystemStage(self)", 1)
+            r.sub("implicit-this call", r"\binvalidateAll\(", "invalidateAll(self, ", 1)
+            r.sub("implicit-this call", r"\bnote([QUZY])Change\(\)", r"note\1Change(self)", None, 0)
+            r.drop("opaque payload: returned reference to the variable's storage", r"return [^;]*;", "return;", 1)
+        U.fn(STATEIMPL_H, anchor_rx, "StateImpl::" + cname.replace("_sub", "(SubsystemIndex)") + ("()" if not per_sub else ""),
+             "void StateImpl_%s(struct StateImpl* self%s)" % (cname, ", int subsys" if per_sub else ""), x_acc, members=SI)
+        acc_lines.append((cname, docstage, bumps, per_sub, doc))
+    U.accessors = acc_lines
+
     path = os.path.join(ctx.out, "state_unit.c")
     P.append('#include "%s/state_harness.h"\n' % SPEC)
+    # accessor harnesses (generated from the ACCESSORS table: documented stage, value versions that must change)
+    P.append("#ifdef PLAIN_WORLD")
+    minsys = {"updTime": "Stage_Topology", "updQErrWeights": "Stage_Instance", "updUErrWeights": "Stage_Instance",
+              "updQErrWeights_sub": "Stage_Instance", "updUErrWeights_sub": "Stage_Instance"}
+    for (cname, docstage, bumps, per_sub, doc) in U.accessors:
+        call = "StateImpl_%s(&W_st%s)" % (cname, ", vf_any_subsys" if per_sub else "")
+        macro = "ACCESSOR_HARNESS_CONSERVATIVE" if cname in CONSERVATIVE_OK else "ACCESSOR_HARNESS"
+        P.append("/* %s */\n%s(%s, %s, Stage_%s, %d, %d, %d, %s)" % (doc, macro, cname, call, docstage, "q" in bumps, "u" in bumps, "z" in bumps,
+                                                                 minsys.get(cname, "Stage_Model")))
+    P.append("#endif")
     open(path, "w").write("\n".join(P))
-    return path
+    return path, U.accessors
